@@ -74,7 +74,7 @@ static void emit_theta(const S& s, bool with_state, Out& o) {
 }
 template<typename S>
 static void emit_tuple(const S& s, uint32_t m, bool with_state, Out& o) {
-  if (m >= s.get_num_retained())  // plain overloads
+  if (m == s.get_num_retained() || m == 0x80000000u)  // plain overloads
     emit_sketch(s, m, with_state,
                 [&](uint8_t sd) { return s.get_lower_bound(sd); }, [&](uint8_t sd) { return s.get_upper_bound(sd); }, o);
   else
